@@ -60,6 +60,7 @@ type Probe struct {
 	// Rejected: the probe is refused by the server before routing (it announces a body beyond Config.BodyLimit): its
 	// answer is produced by the application's ErrorHandler, which observes the context it is given
 	Rejected bool `json:",omitempty"`
+	Root     bool `json:",omitempty"` // the probe asks for "/" (route "/:lang?", its parameter left out)
 }
 
 type Case struct {
@@ -174,6 +175,10 @@ func newApp(c Case) *fiber.App {
 		_ = ctx.ViewBind(siteVars)
 		return ctx.Render("tpl", fiber.Map{"own": "1", "obs": strings.Join(obs, "\n")})
 	})
+	// a language switch at the root of the site: "/" and "/de" are one route with an optional parameter
+	app.Get("/:lang?", func(ctx fiber.Ctx) error {
+		return ctx.SendString(strings.Join(vk.Observe(ctx, "lk", "other"), "\n") + "\nlang-with-default=" + ctx.Params("lang", "en"))
+	})
 	return app
 }
 
@@ -185,6 +190,9 @@ func flashHdr(b []byte) string {
 }
 
 func (h HReq) wire() []byte {
+	if h.Kind == "root" {
+		return []byte(fmt.Sprintf("GET /L%d?a=qa%d HTTP/1.1\r\nHost: h%d.sub.test\r\nX-A: ha%d\r\n\r\n", h.I, h.I, h.I, h.I))
+	}
 	if h.Kind == "malformed" {
 		switch h.Mal {
 		case "badline":
@@ -259,6 +267,9 @@ func (p Probe) wire() []byte {
 	}
 	if ck != "" {
 		hdr += "Cookie: " + ck + "\r\n"
+	}
+	if p.Root && !p.Rejected {
+		return []byte(fmt.Sprintf("GET /?%s HTTP/1.1\r\nHost: probe.test\r\n%s\r\n", q, hdr))
 	}
 	if p.Rejected {
 		hdr += "X-Probe-EH: 1\r\nContent-Length: 99999999\r\n" // the default BodyLimit is 4 MiB: refused with 413 once the header is read
@@ -442,6 +453,11 @@ func genCase(t *rapid.T) Case {
 	for i := 0; i < n; i++ {
 		h := HReq{Kind: "dirty", I: i + 1, Method: rapid.SampledFrom([]string{"GET", "POST", "PUT"}).Draw(t, "m"), P2: rapid.Bool().Draw(t, "p2"),
 			NewConn: rapid.IntRange(0, 4).Draw(t, "newconn") == 0}
+		if rapid.IntRange(0, 9).Draw(t, "rootreq") == 0 {
+			h.Kind = "root"
+			c.Hist = append(c.Hist, h)
+			continue
+		}
 		if rapid.IntRange(0, 7).Draw(t, "malformed") == 0 {
 			h.Kind, h.Mal = "malformed", rapid.SampledFrom([]string{"badline", "badheader", "bigheader", "badchunk", "badlength"}).Draw(t, "mal")
 			c.Hist = append(c.Hist, h)
@@ -468,6 +484,7 @@ func genCase(t *rapid.T) Case {
 	if rapid.IntRange(0, 1).Draw(t, "pflash") == 0 {
 		c.Probe.Flash = genFlash(t, "pf")
 	}
+	c.Probe.Root = rapid.IntRange(0, 5).Draw(t, "proot") == 0
 	if rapid.IntRange(0, 5).Draw(t, "prej") == 0 {
 		c.Probe.Rejected = true
 		c.Probe.Method = rapid.SampledFrom([]string{"POST", "PUT", "PROPFIND", "BREW"}).Draw(t, "prm") // also methods outside Config.RequestMethods
